@@ -416,7 +416,8 @@ class Prop:
                             return 'step %d: KEEPALIVE/UPDATE/OPEN received but hold timer is %s, not re-armed to %d' % (k, hold_a, h)
                     if opened_now and h > 0 and ka_a != [1, h // 3] and not (st_after == 5 and ka_a[0] == 1 and ka_a[1] <= h // 3):
                         return 'step %d: hold time %d negotiated but the keepalive timer is %s, not %d' % (k, h, ka_a, h // 3)
-            if st_before != 5 and st_after == 5:
+            became_established = st_before != 5 and st_after == 5
+            if became_established:
                 send_outstanding = True       # End-of-RIB markers are queued when the session comes up
             # (R2) ... and nothing else does
             if o[3] == 1 and st_before in (4, 5) and st_after in (4, 5) and h:
@@ -433,6 +434,10 @@ class Prop:
                         send_outstanding = False
                     else:
                         return 'step %d: keepalive deadline moved from %d to %d by %s (not the timer firing, not an UPDATE sent)' % (k, kb, kaa, kind)
+            # what was waiting to be sent goes out in the first iteration that reaches the socket
+            if kind == 'select' and (reading or (not ka_fired and not due(hold_b) and not close_pending and not close_maybe)) \
+                    and not became_established:
+                send_outstanding = False
             # timers that must (not) be running
             if o[3] == 1 and st_after in (4, 5) and h is not None:
                 if h == 0:
